@@ -4,7 +4,6 @@ import (
 	"encoding/binary"
 	"errors"
 	"fmt"
-	"io"
 	"math"
 	"strings"
 	"time"
@@ -65,7 +64,7 @@ func (krbAuth *GSSAPIKerberosAuth) writePackage(broker *Broker, payload []byte) 
 	finalPackage := make([]byte, size)
 	copy(finalPackage[4:], payload)
 	binary.BigEndian.PutUint32(finalPackage, uint32(length))
-	bytes, err := broker.conn.Write(finalPackage)
+	bytes, err := broker.write(finalPackage)
 	if err != nil {
 		return bytes, err
 	}
@@ -76,14 +75,14 @@ func (krbAuth *GSSAPIKerberosAuth) writePackage(broker *Broker, payload []byte) 
 func (krbAuth *GSSAPIKerberosAuth) readPackage(broker *Broker) ([]byte, int, error) {
 	bytesRead := 0
 	lengthInBytes := make([]byte, 4)
-	bytes, err := io.ReadFull(broker.conn, lengthInBytes)
+	bytes, err := broker.readFull(lengthInBytes)
 	if err != nil {
 		return nil, bytesRead, err
 	}
 	bytesRead += bytes
 	payloadLength := binary.BigEndian.Uint32(lengthInBytes)
 	payloadBytes := make([]byte, payloadLength)         // buffer for read..
-	bytes, err = io.ReadFull(broker.conn, payloadBytes) // read bytes
+	bytes, err = broker.readFull(payloadBytes)  // read bytes
 	if err != nil {
 		return payloadBytes, bytesRead, err
 	}
